@@ -88,6 +88,11 @@ def opOfJson (j : Json) : Except String Op := do
   | "dictSetAt" => pure (.dictSetAt (← pathOfJson (← j.getObjVal? "path")) (← key "k") (← blk "b"))
   | "copyKey" => pure (.copyKey (← key "src") (← key "dst"))
   | "shortcutArgsCopy" => pure (.shortcutArgsCopy (← refOfJson (← j.getObjVal? "src")))
+  | "fmtSetAt" =>
+    let keep ← match j.getObjVal? "keep" with
+      | .ok k => (← k.getArr?).toList.mapM jsonNat?
+      | .error _ => pure []
+    pure (.fmtSetAt (← pathOfJson (← j.getObjVal? "path")) (← key "k") (← refOfJson (← j.getObjVal? "src")) keep)
   | _ => throw s!"unknown heap op {o}"
 
 def arenaEq (a b : Arena) : Bool := decide (a = b)
@@ -97,7 +102,48 @@ def sharedSame (n : Nat) (h0 h : Heap) : Bool :=
   (List.range n).all (fun p => arenaEq (h.arena (.defn p)) (h0.arena (.defn p))) &&
     arenaEq (h.arena .config) (h0.arena .config)
 
-/-- `runExec` {defs: [block…], cfg: block, sched: [[r, op]…], fuel?, watch?: [ref…]} →
+def opsOfJson (j : Json) : Except String (List Op) := do
+  (← j.getArr?).toList.mapM opOfJson
+
+/-- `{obj, run, pre: [op…], steps: [[null | nested run, op]…]}`: one call `obj.run(context of run)` -/
+def callOfJson (j : Json) : Except String Call := do
+  let steps ← (← (← j.getObjVal? "steps").getArr?).toList.mapM fun e => do
+    match e with
+    | .arr #[.null, o] => pure (Option.none, (← opOfJson o))
+    | .arr #[r, o] => pure (some (← jsonNat? r), (← opOfJson o))
+    | _ => throw "bad call step"
+  pure ⟨← jsonNat? (← j.getObjVal? "obj"), ← jsonNat? (← j.getObjVal? "run"),
+        ← opsOfJson (← j.getObjVal? "pre"), steps⟩
+
+/-- The schedule of a request: `sched: [[r, op]…]` as it is, or `calls: [call…]` – a history of calls
+    on `Pipeline` objects that start out fresh – turned into operations by `callsSched` under the
+    `StepsRunner` rule of the code as it is (`perCall`; `rule: "keepFirst"` for what-if questions). -/
+def schedOfJson (j : Json) : Except String Sched := do
+  match j.getObjVal? "calls" with
+  | .ok cs =>
+    let calls ← (← cs.getArr?).toList.mapM callOfJson
+    let rule ← match j.getObjVal? "rule" with
+      | .ok (.str "keepFirst") => pure RunnerRule.keepFirst
+      | .ok (.str "perCall") => pure RunnerRule.perCall
+      | .ok r => throw s!"bad runner rule {r.compress}"
+      | .error _ => pure RunnerRule.perCall
+    pure (callsSched rule Objs.fresh calls)
+  | .error _ =>
+    (← (← j.getObjVal? "sched").getArr?).toList.mapM fun e => do
+      match e with
+      | .arr #[r, o] => pure ((← jsonNat? r), (← opOfJson o))
+      | _ => throw "bad schedule entry"
+
+/-- The same heap with the arenas of `regs` computed once and stored (a `Heap` is a function; after
+    k operations it is a chain of k closures, and every read would run through all of them again).
+    Regions outside `regs` still go through the original function: the result is extensionally `h`. -/
+def materialize (regs : List Region) (h : Heap) : Heap :=
+  let table := regs.map fun g => (g, h.arena g)
+  ⟨fun g => match table.find? (fun e => e.1 == g) with
+    | some e => e.2
+    | none => h.arena g⟩
+
+/-- `runExec` {defs: [block…], cfg: block, sched: [[r, op]…] | calls: [{obj, run, pre, steps}…], fuel?, watch?: [ref…]} →
     {steps: [{r, applied, ctx, foreign} after every operation, for the run that moved],
      sharedSame: every definition/config arena is still what the loader produced,
      sharedSameAt: index of the first operation after which that stopped being true (or null),
@@ -108,22 +154,21 @@ def runExec (j : Json) : Except String Json := do
   let fuel := match j.getObjVal? "fuel" with
     | .ok f => (jsonNat? f).toOption.getD 64
     | .error _ => 64
-  let sched ← (← (← j.getObjVal? "sched").getArr?).toList.mapM fun e => do
-    match e with
-    | .arr #[r, o] => pure ((← jsonNat? r), (← opOfJson o))
-    | _ => throw "bad schedule entry"
+  let sched ← schedOfJson j
   let watch ← match j.getObjVal? "watch" with
     | .ok w => (← w.getArr?).toList.mapM refOfJson
     | .error _ => pure []
-  let h0 := Heap.init defs cfg
   let n := defs.length
+  let regs : List Region := (List.range n).map Region.defn ++ [Region.config] ++
+    (sched.map fun e => Region.run e.1).eraseDups
+  let h0 := materialize regs (Heap.init defs cfg)
   let rec go (h : Heap) (s : List (Nat × Op)) (i : Nat) (acc : List Json) (firstBad : Option Nat) :
       List Json × Heap × Option Nat :=
     match s with
     | [] => (acc.reverse, h, firstBad)
     | (r, op) :: rest =>
       let applied := (effect h r op).isSome
-      let h1 := step h r op
+      let h1 := materialize regs (step h r op)
       let obs := Json.mkObj [("r", natJ r), ("applied", Json.bool applied),
         ("ctx", (deepVal fuel h1 (root r)).toJson),
         ("foreign", Json.arr ((foreignReach (4 * fuel + 4096) h1 r).map refToJson).toArray)]
@@ -168,6 +213,7 @@ def cellOfJson (j : Json) : Except String Cell := do
   if let .ok v := j.getObjVal? "leaf" then
     let w ← Val.ofJson v
     if isLeafVal w then return .leaf w else throw "leaf cell holds a non-leaf value"
+  if let .ok s := j.getObjVal? "mbytes" then return .mbytes (← s.getStr?)   -- hex text, as {"b": hex}
   if let .ok s := j.getObjVal? "str" then return .str (← s.getStr?)
   if let .ok x := j.getObjVal? "list" then let (t, rs) ← taggedRefs x; return .list t rs
   if let .ok x := j.getObjVal? "tuple" then let (t, rs) ← taggedRefs x; return .tuple t rs
@@ -191,6 +237,7 @@ def refsJ (rs : List Ref) : Json := Json.arr (rs.map natJ).toArray
 
 def cellToJson : Cell → Json
   | .leaf v => Json.mkObj [("leaf", v.toJson)]
+  | .mbytes b => Json.mkObj [("mbytes", Json.str b)]
   | .str s => Json.mkObj [("str", Json.str s)]
   | .list t rs => Json.mkObj [("list", Json.arr #[natJ t, refsJ rs])]
   | .tuple t rs => Json.mkObj [("tuple", Json.arr #[natJ t, refsJ rs])]
